@@ -349,6 +349,16 @@ class Function:
         self.local_definitions()
         return self._local_def_nodes
 
+    def through_locals_at(self, t, i):
+        """Term t with the locals that name a value at node i replaced by what they name (one round)."""
+        m = {}
+        for st in _subterms(t):
+            if st[0] == "var" and st not in m:
+                val = self.local_value_at(st, i)
+                if val is not None:
+                    m[st] = val
+        return _subst_vars(t, m) if m else t
+
     def xterm(self, i):
         """term(i) with the locals that name a value at that point replaced by what they name (to a fix-point)."""
         t = self.term(i)
